@@ -2244,6 +2244,7 @@ static void _conn_reset(xmpp_conn_t *conn)
     conn->session_required = 0;
 
     handler_system_delete_all(conn);
+    auth_scram_reset(conn);
 }
 
 static int _conn_connect(xmpp_conn_t *conn,
